@@ -58,6 +58,14 @@ class SimDeadlock(BaseException):
     """Main thread blocked with no enabled environment event: the production hang."""
 
 
+class SimSigDeath(BaseException):
+    """the simulated cond process was terminated by the default action of a signal"""
+
+    def __init__(self, signum):
+        super().__init__(signum)
+        self.signum = int(signum)
+
+
 class SimLimit(BaseException):
     """Harness step cap exceeded (reported as harness error, never as a violation)."""
 
@@ -849,6 +857,8 @@ def _sh_fork_exec(*a):
             # a real helper process (tar): its exec-error pipe is read with a real blocking read
             s.real_fds.add(a[12])
         return REAL.fork_exec(*a)
+    if s.dead is not None:
+        raise SimSigDeath(s.dead)
     pid = s.k_fork_exec(*a)
     s.after_call()
     return pid
@@ -884,6 +894,8 @@ def _sh_killpg(pg, sig):
     s = CUR
     if s is None or pg < FAKE_BASE:
         return REAL.killpg(pg, sig)
+    if s.dead is not None:
+        raise SimSigDeath(s.dead)
     try:
         s.k_kill(pg, sig, group=True)
     except OSError:
@@ -1183,6 +1195,7 @@ class Inv:
         self.cp_marks = []
         self.ki = 0
         self.sig_where = None
+        self.sigdeath = None
         self.kill_where = None
         self.exit_hang = False
         self.plan = None
@@ -1247,6 +1260,7 @@ class Sim:
         self.sig_seq = 0
         self.wakeup_fd = None
         self.registered = set()
+        self.dead = None
 
     def count(self, key, k=1):
         self.stats[key] = self.stats.get(key, 0) + k
@@ -1375,6 +1389,16 @@ class Sim:
     def raise_signal(self, signum):
         """kernel side + CPython's C-level handler: the signal is marked tripped (its Python handler runs
         at the next check point of the main thread) and, if a wakeup fd is set, a byte is written to it"""
+        if int(signum) in (int(signal.SIGINT), int(signal.SIGTERM)):
+            h0 = self.handlers.get(int(signum))
+            if h0 == signal.SIG_DFL or (h0 is None and int(signum) == int(signal.SIGTERM)):
+                # kernel default action (the program set SIG_DFL itself, or never installed a handler for
+                # SIGTERM): the process ends here and now - no handler, no clean-up, no exit hooks.  (An
+                # untouched SIGINT is CPython's default_int_handler -> KeyboardInterrupt, see dispatch)
+                self.dead = int(signum)
+                self.emit("sigdeath", signal.Signals(int(signum)).name)
+                self.count("reach.signal_met_default_disposition")
+                raise SimSigDeath(signum)
         self.pending.add(int(signum))
         self.sig_seq += 1
         if (self.op or {}).get("stdout_gone_on_signal") and int(signum) in (int(signal.SIGINT), int(signal.SIGTERM)):
@@ -1663,6 +1687,8 @@ class Sim:
                     w.step()
 
     def on_instant(self):
+        if self.dead is not None:
+            return
         self.n += 1
         n = self.n
         if n >= self.next_async:
@@ -1678,6 +1704,8 @@ class Sim:
             raise SimLimit("instant cap exceeded")
 
     def kill_instant(self, code, fn, kind):
+        if self.dead is not None:
+            return
         self.ki += 1
         if self.kill_at is not None and self.ki == self.kill_at:
             self.emit("KILLED", self.ki, code.co_name if code is not None else "-",
@@ -1692,6 +1720,8 @@ class Sim:
         self.checkpoint(None, "shim")
 
     def checkpoint(self, code, what):
+        if self.dead is not None:
+            return
         if int(signal.SIGTERM) in self.registered:
             self.cp += 1
             sp = self.sig_plan
@@ -1708,13 +1738,22 @@ class Sim:
                     if f is not None:
                         where = "%s:%s:after-%s" % (os.path.basename(f.f_code.co_filename),
                                                     f.f_code.co_name, sys._getframe(2).f_code.co_name)
-                self.sig_where = where
                 live = sorted(p.name for p in self.procs.values() if p.state == "running" and not p.stray)
-                self.emit("sigsent", sp[1], self.cp, where, live, self._in_destructor())
-                self.count("fault.SIG" + sp[1])
-                self.raise_signal(getattr(signal, "SIG" + sp[1]))
+                self._signal_fired(sp, where, live)
         if self.pending:
             self.dispatch()
+
+    def _signal_fired(self, sp, where, live):
+        first = self.sig_where is None
+        if first:
+            self.sig_where = where
+        in_del = self._in_destructor()
+        self.emit("sigsent" if first else "sigsent_again", sp[1], self.cp, where, live, in_del)
+        self.count("fault.SIG" + sp[1] if first else "fault.second_signal_SIG" + sp[1])
+        if self.sig_then:
+            d, nm = self.sig_then.pop(0)
+            self.sig_plan = (self.cp + max(1, d), nm)
+        self.raise_signal(getattr(signal, "SIG" + sp[1]))
 
     @staticmethod
     def _in_destructor():
@@ -1739,7 +1778,7 @@ class Sim:
                 while f is not None and f.f_code.co_filename == __file__:
                     f = f.f_back
                 h(signum, f)
-            elif signum == signal.SIGINT and h == signal.SIG_DFL:
+            elif signum == signal.SIGINT and h == signal.SIG_DFL and int(signal.SIGINT) not in self.handlers:
                 raise KeyboardInterrupt()
             # SIGCHLD with default disposition is discarded
 
@@ -1762,12 +1801,9 @@ class Sim:
                 sp = self.sig_plan
                 if sp is not None and self.cp == sp[0]:
                     self.sig_plan = None
-                    self.sig_where = "block:" + why
                     live = sorted(p.name for p in self.procs.values()
                                   if p.state == "running" and not p.stray)
-                    self.emit("sigsent", sp[1], self.cp, self.sig_where, live, self._in_destructor())
-                    self.count("fault.SIG" + sp[1])
-                    self.raise_signal(getattr(signal, "SIG" + sp[1]))
+                    self._signal_fired(sp, "block:" + why, live)
             if self.pending and not self.in_cb and self.sig_seq != seen_seq:
                 seen_seq = self.sig_seq
                 self.dispatch()
@@ -1811,8 +1847,12 @@ class Sim:
             self.next_async = self.sched.gap()
         self.n_cap = self.knobs.get("n_cap", 3_000_000)
         sg = op.get("signal")
+        self.sig_then = []
         if sg:
             self.sig_plan = (int(sg["cp"]), sg["sig"])
+            # further signals of the same invocation: [{"sig": "INT", "after": d}] - d check points after the
+            # previous one (an impatient second Ctrl-C, a batch system that repeats its SIGTERM)
+            self.sig_then = [(int(t["after"]), t["sig"]) for t in sg.get("then", [])]
         for nm in op.get("sig_ign", []):
             # dispositions inherited from the parent (a non-interactive shell starts background jobs
             # with SIGINT ignored)
@@ -1877,6 +1917,13 @@ class Sim:
             except SimDeadlock as e:
                 inv.deadlock = str(e)
                 inv.code = None
+                e = None
+            except SimSigDeath as e:
+                # no exit hooks run: tee threads vanish with the process (abandoned below)
+                inv.sigdeath = signal.Signals(e.signum).name
+                inv.code = -e.signum
+                self.main_done = True
+                self.emit("main_done", inv.code)
                 e = None
             except SimLimit:
                 raise
